@@ -185,7 +185,7 @@ func genGarbage(r *core.Rand, withCR bool) Bin {
 	case 1:
 		b = printable(r, n)
 	default:
-		b = []byte(strings.Repeat(core.Choice(r, []string{"Login:", "callsig", "Passwor", "*** ", "\xff\xfd\x18"}), n/4+1))[:n]
+		b = []byte(strings.Repeat(core.Choice(r, []string{"Login:", "callsig", "Passwor", "*** ", "\xff\xfd\x18"}), n/3+1))[:n]
 	}
 	for i := range b {
 		if b[i] == '\r' {
